@@ -617,6 +617,10 @@ def check_sink(run, tree):
         ret, st, _ = run_case(new, select=False)
         if ret is not None or st["loadtxt"]:
             problems.append("group switched off -> %r, %d tables parsed" % (ret, len(st["loadtxt"])))
+        for kw in (dict(size=0), dict(exists=False)):
+            ret, st, _ = run_case(new, select=False, **kw)
+            if ret is not None:
+                problems.append("group switched off, %s -> %r (required None: an excluded group is not returned)" % ("empty file" if "size" in kw else "no file", ret))
         r1, st1, reader = run_case(new)
         r2, st2, reader = run_case(new, reader=reader)
         if r1 is r2 or (isinstance(r1, SinkGroup) and isinstance(r2, SinkGroup) and any(r1.items_.get(k) is r2.items_.get(k) for k in r1.items_)):
@@ -722,7 +726,12 @@ def check_units_library(run, tree):
                 problems.append("%s[%r] -> %r (required %r)" % (who, key, got, want))
         ev.invoke(si, [a, "velocity_x", "NEW"], {}, None)
         ev.invoke(si, [b, "velocity_*", "W2"], {}, None)
-        for who, key, want in (("a", "velocity_x", "NEW"), ("a", "velocity_y", "V1"), ("b", "velocity_x", "W2"), ("b", "velocity_y", "W2")):
+        ev.invoke(si, [a, "tracer_*", "T1"], {}, None)          # a NEW wildcard key, added by the user after the dataset was created
+        upd = tree.method(ci, "update")
+        if upd is not None:
+            ev.invoke(upd, [b, {"metal_*": "M2"}], {}, None)
+        for who, key, want in (("a", "velocity_x", "NEW"), ("a", "velocity_y", "V1"), ("b", "velocity_x", "W2"), ("b", "velocity_y", "W2"), ("a", "tracer_3", "T1"),
+                               ("b", "tracer_3", "DEF2")) + ((("b", "metal_fe", "M2"), ("a", "metal_fe", "DEF1")) if upd is not None else ()):
             got = get(a if who == "a" else b, key)
             if got != want:
                 problems.append("after assignment: %s[%r] -> %r (required %r)" % (who, key, got, want))
